@@ -1,0 +1,45 @@
+//go:build verif
+
+package pool
+
+import "net/http"
+
+// SetPeerHealthForVerif sets the health state of a peer as checkPeer would after crossing the
+// failure threshold (healthy=false) or after a successful probe (healthy=true).
+func (p *PeerPool) SetPeerHealthForVerif(nodeID string, healthy bool) {
+	p.healthMu.Lock()
+	defer p.healthMu.Unlock()
+	h, ok := p.peerHealthMap[nodeID]
+	if !ok {
+		h = &peerHealth{healthy: true}
+		p.peerHealthMap[nodeID] = h
+	}
+	h.healthy = healthy
+	if healthy {
+		h.consecutiveFailures = 0
+	} else if h.consecutiveFailures < p.healthThreshold {
+		h.consecutiveFailures = p.healthThreshold
+	}
+}
+
+// RankedForVerif returns the rendezvous ranking of the current peer list for a subscriber.
+func (p *PeerPool) RankedForVerif(subscriberID string) []string {
+	p.mu.RLock()
+	nodes := p.peerNodes
+	p.mu.RUnlock()
+	r := rendezvousRanked(subscriberID, nodes)
+	out := make([]string, len(r))
+	copy(out, r)
+	return out
+}
+
+// HealthyOwnerForVerif exposes getHealthyOwner.
+func (p *PeerPool) HealthyOwnerForVerif(subscriberID string) string {
+	return p.getHealthyOwner(subscriberID)
+}
+
+// SetHTTPClientForVerif replaces the client used to forward requests to peers, so that a
+// harness can connect several pools in one process without sockets.
+func (p *PeerPool) SetHTTPClientForVerif(c *http.Client) {
+	p.httpClient = c
+}
